@@ -415,3 +415,8 @@ package car
 //@   call[os.Open#0] assert the_file [C03]: arg0 == path
 //@   call[os.Open#0] assume at_origin: err == nil ==> pos(result0) == 0 && sbase(result0) == 0
 //@   call[GenerateIndex#0] assert over_that_file_with_the_options [C03]: ref(arg0) == ref(f) && arg1 == opts
+
+//@ func traverse
+//@   trusted
+//@   note the traversal engine (go-ipld-prime) is a dependency: it reaches tracked state only through the link system it is given
+//@   ensures root_load_error_is_reported [C15]: true
